@@ -1240,6 +1240,130 @@ func c17PushFlap(c *fw.Ctx, i int) {
 	}
 }
 
+// c17PushHandover: the push attempt started for publisher A is still waiting for the target's answer when A leaves
+// and B (other URL parameters) takes the name. Once the target answers, whatever reaches it under A's publish name
+// must not be B's stream: A's push ends with A, and B gets a push of its own with B's parameters.
+func c17PushHandover(c *fw.Ctx, i int) {
+	gate := make(chan struct{})
+	target, err := ref.NewRtmpStub(func(n int) ref.StubBehaviour {
+		if n == 0 {
+			return ref.StubBehaviour{WithholdStatus: gate}
+		}
+		return ref.StubBehaviour{}
+	})
+	if err != nil {
+		c.Inconclusive("target stub: %v", err)
+		return
+	}
+	defer target.Close()
+	e := c17Start(c, i, false, []string{target.Addr})
+	if e == nil {
+		return
+	}
+	defer e.stop()
+	e.desc = "push: the target withholds its answer to the first publish; publisher A (?who=a) leaves and B (?who=b) takes the name while that attempt is in flight; then the target answers"
+	c.Describe("%s", e.desc)
+	c.Cell("push/handover-while-attempt-in-flight")
+	released := false
+	defer func() {
+		if !released {
+			close(gate)
+		}
+	}()
+	// a viewer keeps the group alive between the publishers
+	x := e.sub()
+	defer e.unsub(x)
+	nameA, nameB := e.name+"?who=a&t=1", e.name+"?who=b&t=2"
+	pa, err := ref.StartRtmpPublisher(e.s.RtmpAddr(), "live", nameA, 3*time.Second)
+	if err != nil {
+		c.Inconclusive("publisher A: %v", err)
+		return
+	}
+	e.logf("publisher A accepted")
+	// the attempt for A has sent its publish command
+	if !srv.WaitFor(3*time.Second, func() bool {
+		for _, s := range target.Snapshot() {
+			if role, _, _ := s.GetRole(); role == "publish" {
+				return true
+			}
+		}
+		return false
+	}) {
+		pa.Close()
+		c.Inconclusive("no push attempt reached the target within 3 s")
+		return
+	}
+	from := e.s.Notify.Len()
+	pa.Close()
+	if _, ok := e.s.Notify.Wait(3*time.Second, from, func(ev srv.Event) bool { return ev.Kind == "pub_stop" && ev.StreamName == e.name }); !ok {
+		c.Inconclusive("publisher A's departure not seen")
+		return
+	}
+	e.logf("publisher A left")
+	pb, err := ref.StartRtmpPublisher(e.s.RtmpAddr(), "live", nameB, 3*time.Second)
+	if err != nil {
+		c.Inconclusive("publisher B: %v", err)
+		return
+	}
+	defer pb.Close()
+	e.logf("publisher B accepted")
+	pm := gen.Build(c.SubRng("pub"), 1, gen.Shape{Name: "c17h", Video: true, Audio: true, Gops: 60, GopLen: 5, AudioPerVid: 1, Sizes: []int{100, 300}})
+	stopFeed := make(chan struct{})
+	var fwg sync.WaitGroup
+	fwg.Add(1)
+	go func() {
+		defer fwg.Done()
+		next := 0
+		for {
+			select {
+			case <-stopFeed:
+				return
+			case <-time.After(100 * time.Millisecond):
+				for k := 0; k < 8 && next < len(pm); k++ {
+					m := pm[next]
+					next++
+					pb.RC.Send(ref.RtmpMsg{Csid: csidFor(m.Type), TypeID: m.Type, StreamID: pb.Msid, Ts: m.Ts, Payload: m.Payload}, 0)
+				}
+			}
+		}
+	}()
+	defer func() { close(stopFeed); fwg.Wait() }()
+	time.Sleep(300 * time.Millisecond)
+	close(gate)
+	released = true
+	e.logf("target answers the publish that was started for A")
+	// B's own push: a publish session named with B's parameters, within 2 ticks + 2 s of the answer (the attempt
+	// for A has to end first: one session per target)
+	okB := srv.WaitFor(2*c17Tick+3*time.Second, func() bool {
+		for _, s := range target.Snapshot() {
+			if role, name, started := s.GetRole(); role == "publish" && name == nameB && started && !s.IsClosed() {
+				return true
+			}
+		}
+		return false
+	})
+	c.Eval(1)
+	for _, s := range target.Snapshot() {
+		role, name, _ := s.GetRole()
+		if role != "publish" || name == nameB {
+			continue
+		}
+		if name != nameA {
+			c.Violate("push/params", fmt.Sprintf("the target received publish name %q, the publishers used %q and %q\n%s", trunc(name, 120), nameA, nameB, e.trace()), nil)
+			continue
+		}
+		// the session opened for A: B's media must not arrive in it, and it must be closed by now
+		if n := s.Hist.Len(); n > 3 {
+			c.Violate("push/params/previous-publisher", fmt.Sprintf("the push session that was started for publisher A (publish name %q) carried %d messages although A had left before the target answered; they are publisher B's (%q)\n%s", nameA, n, nameB, e.trace()), nil)
+		} else if !s.IsClosed() {
+			c.Violate("push/outlives-publisher", fmt.Sprintf("the push session started for publisher A (%q) is still open %v after the target answered, A had left before\n%s", nameA, 2*c17Tick+3*time.Second, e.trace()), nil)
+		}
+	}
+	if !okB {
+		c.Violate("push-progress/after-handover", fmt.Sprintf("no push session with publisher B's name %q at the target %v after the stale attempt was answered\n%s", nameB, 2*c17Tick+3*time.Second, e.trace()), nil)
+	}
+}
+
 func init() {
 	type sc struct {
 		name string
@@ -1272,6 +1396,7 @@ func init() {
 		cat = append(cat, sc{"push", func(c *fw.Ctx, i int) { c17Push(c, i, p.ing, p.nt, p.ref, p.par) }})
 	}
 	cat = append(cat, sc{"push-flap", c17PushFlap})
+	cat = append(cat, sc{"push-handover", c17PushHandover})
 	nCat := len(cat)
 	fw.Register(&fw.Prop{
 		ID: "C17",
@@ -1283,7 +1408,7 @@ func init() {
 		},
 		Batches:     func(string) int { return 16 },
 		CaseTimeout: func(string) time.Duration { return 4 * time.Minute },
-		Rule: "whole-server runs with a scriptable RTMP origin and scriptable push targets in the harness that log every accepted connection. Monitor (every run): each origin connection must be permitted — pulling enabled (static, or a start_relay_pull since the last stop/kick), no publisher or pull attached during the whole preceding tick, no earlier connection still unanswered, attempt count ≤ pull_retry_num+1 since the governing start/stop, and for auto-stop ≥ 0 a consumer present within window+1 tick (for a window > 0 a start call within the window counts as start-up grace). Scripted: retry budgets 0/1/3/−1 against a refusing origin (exact attempt counts; after the budget is spent stop + start must be accepted and get a fresh budget; for −1 attach, media, stop reply = attached id, pull_stop ≤ 3 s); auto-stop −1/0/2000/4000 ms and static pull (attach ≤ 4 s after a consumer joins, stop within [window−1 tick, window+2 ticks+1 s] after it leaves, never for −1); stop / second start / publisher while the attempt is held in flight by the origin; an attempt overtaken by a publisher that then leaves again (API with unlimited budget, and static): next attempt ≤ 4 ticks+0.3 s, attaches; a pull towards a silent origin with nobody else on the stream (the attempt lasts until its own timeout and is retried); kick of an attached API and static pull. Seeded programs over {consumer join/leave, start(retry, auto-stop), stop, kick, publisher arrive/leave} with origin outcomes refuse / close after connect / die after n messages / serve, judged by the monitor. Push: RTMP and RTSP publishers × 1–3 targets × target refusing its first 0–3 connections × URL parameters of 0/10/300/5000/40000 bytes: one publish session per target within (refusals+2) ticks+2 s, never two at once, publish name byte-equal incl. parameters, media arrives, sessions closed ≤ 3 s after the publisher left and no connection afterwards; a target that accepts and never answers while the publisher leaves and returns three times: never two connections at once, none left 13 s after the last publisher. cell = scenario × parameters.",
+		Rule: "whole-server runs with a scriptable RTMP origin and scriptable push targets in the harness that log every accepted connection. Monitor (every run): each origin connection must be permitted — pulling enabled (static, or a start_relay_pull since the last stop/kick), no publisher or pull attached during the whole preceding tick, no earlier connection still unanswered, attempt count ≤ pull_retry_num+1 since the governing start/stop, and for auto-stop ≥ 0 a consumer present within window+1 tick (for a window > 0 a start call within the window counts as start-up grace). Scripted: retry budgets 0/1/3/−1 against a refusing origin (exact attempt counts; after the budget is spent stop + start must be accepted and get a fresh budget; for −1 attach, media, stop reply = attached id, pull_stop ≤ 3 s); auto-stop −1/0/2000/4000 ms and static pull (attach ≤ 4 s after a consumer joins, stop within [window−1 tick, window+2 ticks+1 s] after it leaves, never for −1); stop / second start / publisher while the attempt is held in flight by the origin; an attempt overtaken by a publisher that then leaves again (API with unlimited budget, and static): next attempt ≤ 4 ticks+0.3 s, attaches; a pull towards a silent origin with nobody else on the stream (the attempt lasts until its own timeout and is retried); kick of an attached API and static pull. Seeded programs over {consumer join/leave, start(retry, auto-stop), stop, kick, publisher arrive/leave} with origin outcomes refuse / close after connect / die after n messages / serve, judged by the monitor. Push: RTMP and RTSP publishers × 1–3 targets × target refusing its first 0–3 connections × URL parameters of 0/10/300/5000/40000 bytes: one publish session per target within (refusals+2) ticks+2 s, never two at once, publish name byte-equal incl. parameters, media arrives, sessions closed ≤ 3 s after the publisher left and no connection afterwards; a target that accepts and never answers while the publisher leaves and returns three times: never two connections at once, none left 13 s after the last publisher; a target that withholds its answer to the publish started for publisher A until A has left and B (other URL parameters) has taken the name: nothing of B arrives under A's publish name, that session ends, B gets a session with B's parameters within 2 ticks+3 s. cell = scenario × parameters.",
 		Assumptions: []string{"a start_relay_pull that lal answers with an error still enables pulling as far as the attempt rules are concerned (lal stores the request and starts later); that the answer then misreports what happened is reported separately (`pull-api/refused-start-armed/*`, a known finding)", "time bands are one tick (1 s) + 0.3 s wide on each side; nothing is judged inside them", "RTSP pull origins are not driven (no RTSP stub server)"},
 		MinCells: 8,
 		Run: func(c *fw.Ctx, i int) {
